@@ -155,6 +155,7 @@ impl Scenario for C02 {
                     }
                 }
                 (TickResult::EngineErr(_), TickResult::EngineErr(_)) => {}
+                (TickResult::ValidatorDisagreement(_), _) | (_, TickResult::ValidatorDisagreement(_)) => {}
                 (a, b) => {
                     return Outcome::violation("schedule_dependent:result_kind", format!("{label}: 1 worker {a:?} vs {b:?}"));
                 }
